@@ -294,7 +294,60 @@ def rule_c14(prog, rep, la=None):
                     rep.violation('A-macro', ('src/internal/qinternal.h', m), n.line, m,
                                   '%s as expanded in %s does not %s the pthread mutex'
                                   % (m, f.name, 'acquire' if m == 'Q_MUTEX_ENTER' else 'release'))
+    _macro_paths(prog, rep, la)
     return la
+
+
+def _macro_paths(prog, rep, la):
+    """Inside the expansion of the lock macros (analysed as ordinary code in the lock/unlock
+    primitives): every path on which the mutex operand is non-NULL must call
+    pthread_mutex_unlock (LEAVE) / pthread_mutex_trylock|lock (ENTER)."""
+    from .cfg import CFG
+    from .own import cond_null_test
+    rep.rule('A-macro-path', 'inside Q_MUTEX_LEAVE every path with a non-NULL mutex reaches pthread_mutex_unlock; '
+                             'inside Q_MUTEX_ENTER every such path passes pthread_mutex_trylock/lock')
+    for key in sorted(prog.funcs, key=str):
+        f = prog.funcs[key]
+        if not la.is_primitive(f):
+            continue
+        macro = [n for n in f.cfg.nodes if n.kind == 'macro'][0].info[0]
+        want = {'pthread_mutex_unlock'} if macro == 'Q_MUTEX_LEAVE' else {'pthread_mutex_trylock', 'pthread_mutex_lock'}
+        cfg = CFG(f, atomic_macros=False)
+        rep.instance('A-macro-path')
+
+        def has_call(n):
+            if not isinstance(n.ast, dict):
+                return False
+            return any(c.get('kind') == 'CallExpr' and prog.callee_name(c) in want for c in walk(n.ast))
+        # search a path entry -> exit avoiding `want` calls and avoiding the mutex-is-NULL branch
+        seen = set()
+        work = [(cfg.entry, [])]
+        bad = None
+        while work and bad is None:
+            n, path = work.pop()
+            if n.id in seen:
+                continue
+            seen.add(n.id)
+            if has_call(n):
+                continue
+            for (s, lab) in n.succs:
+                if n.kind == 'cond' and isinstance(n.ast, dict):
+                    t = cond_null_test(n.ast)
+                    if t and t[0].endswith('qmutex') and ((lab == 'T') == t[1]):
+                        continue        # mutex absent: nothing to release
+                if s is cfg.exit:
+                    bad = path + [n]
+                    break
+                work.append((s, path + [n]))
+        ok = bad is None
+        rep.oblige('A-macro-path', ok, {'function': f.name, 'macro': macro})
+        if not ok:
+            rep.violation('A-macro-path', ('src/internal/qinternal.h', macro), f.line, macro + ':path',
+                          '%s as expanded in %s has a path with a non-NULL mutex that never calls %s '
+                          '(the acquire/release is skipped on that path, so depths no longer pair up)'
+                          % (macro, f.name, '/'.join(sorted(want))),
+                          path=['%s:%s %s' % (f.relfile, x.line, x.kind + ((' ' + canon(x.ast)[:60]) if x.kind == 'cond' else ''))
+                                for x in bad if x.kind in ('cond', 'act')])
 
 
 def _is_null_store(n):
